@@ -4,6 +4,7 @@
 (* 0..n-1, equal payload size except the last, end-of-message flag on the  *)
 (* last; chunks travel independently (any arrival order) and may be lost,  *)
 (* duplicated, replaced by a chunk of another board/chip, have their flag  *)
+(* (ids may also be shifted so that two different chunks share one id)      *)
 (* toggled or their size changed.  The receiver reassembles.               *)
 (*                                                                         *)
 (* Reassemble is the order-free requirement of the statement (a function   *)
@@ -80,7 +81,11 @@ ToggleEom == CanFault /\ \E i \in 1..Len(net) :
 Resize == CanFault /\ \E i \in 1..Len(net) :
           /\ ~net[i].eom
           /\ net' = [net EXCEPT ![i].size = 3] /\ faults' = Append(faults, <<"resize", net[i].id>>) /\ UNCHANGED <<n, rx>>
-Next == Deliver \/ Drop \/ Dup \/ ForeignBoard \/ ForeignChip \/ ToggleEom \/ Resize
+\* the ids from j on are shifted down by one: two *different* chunks share id j-1 and no id is skipped
+ShiftIds == CanFault /\ \E j \in 1..(n - 1) :
+          /\ net' = [i \in 1..Len(net) |-> IF net[i].id >= j THEN [net[i] EXCEPT !.id = @ - 1] ELSE net[i]]
+          /\ faults' = Append(faults, <<"shiftids", j>>) /\ UNCHANGED <<n, rx>>
+Next == Deliver \/ Drop \/ Dup \/ ForeignBoard \/ ForeignChip \/ ToggleEom \/ Resize \/ ShiftIds
 Spec == Init /\ [][Next]_vars
 
 Terminal == net = <<>>
@@ -92,7 +97,7 @@ ImplRefinesReq == ReassembleImpl(rx) = Reassemble(rx)
 NoFaultOk == (Terminal /\ faults = <<>>) => Reassemble(rx) = Ok([k \in 1..n |-> k - 1])
 \* (3) every listed single fault makes reassembly fail (when it can be noticed at all:
 \*     a foreign chunk needs a second chunk to be "mixed" with, a resize needs two non-final chunks)
-Noticeable(f) == CASE f[1] \in {"drop", "dup", "eom"} -> TRUE
+Noticeable(f) == CASE f[1] \in {"drop", "dup", "eom", "shiftids"} -> TRUE
                    [] f[1] \in {"board", "chip"} -> n >= 2
                    [] f[1] = "resize" -> n >= 3
 SingleFaultFails == (Terminal /\ Len(faults) = 1 /\ Noticeable(faults[1])) => ~Reassemble(rx).ok
